@@ -64,7 +64,7 @@ add("C02", "pbt", "adversarial input generation + fuzz-style mutation, executed 
     "DESIGN.md §7 C02")
 
 add("C16", "sched", "exhaustive schedule enumeration (stateless DFS) under a deterministic baton-passing thread scheduler + random schedules (proptest) + long sequential histories + OS-thread stress",
-    "Every interleaving of the instrumented atomic steps of 2..3 concurrent allocate()/make_reference() calls is enumerated from counter positions around the wrap point and the serial's 32-bit wrap; random schedules for up to 4 threads; 3 x 2^20 sequential allocations across three wraps with creation changes; hook-free OS-thread stress across the wrap; node operations that make references (monitor of local / unreachable / unconnected targets, unlink) interleaved with make_reference at the node's yield points. Oracle: pairwise distinct, never a pid the current epoch already issued, right creation, ids restart at 1, no deadlock.",
+    "Every interleaving of the instrumented atomic steps of 2..3 concurrent allocate()/make_reference() calls is enumerated from counter positions around the wrap point and the serial's 32-bit wrap; random schedules for up to 4 threads; 3 x 2^20 sequential allocations across three wraps with creation changes; hook-free OS-thread stress across the wrap; a node started against the harness's EPMD in both reply forms (creation in force = what EPMD assigned); node operations that make references (monitor of local / unreachable / unconnected targets, unlink) interleaved with make_reference at the node's yield points. Oracle: pairwise distinct, never a pid the current epoch already issued, right creation, ids restart at 1, no deadlock.",
     "Interleavings are controlled only at the sync_point hooks (cfg edp_rs_verif); a rewrite that drops the hooks is only reachable by the stress and history campaigns. The 2^32-call horizon of reference words is outside every history.",
     "DESIGN.md §7 C16")
 
@@ -77,7 +77,7 @@ add("C06", "netbed", "model-based property testing: scripts from a conforming se
     "Known open finding C06-F1 (messages in >= 2 fragments, root cause C09-F1); junk never poses as a header frame of the connection.",
     "DESIGN.md §7 C06")
 add("C07", "netbed", "property-based testing with an independent protocol reader on the peer side + generated task schedules at instrumented yield points (concurrent senders through one Node)",
-    "Sequences of the six send-side operations with generated arguments in both framing modes (incl. asymmetric flag offers, payloads with 248..320 distinct atoms around the header's limit of 255, sends whose frame length steps byte by byte across 2^12..2^16, unencodable operations, never-connected and closed connections) are read back by an independent deframer and reader and compared with the protocol's control tuple; 1..5 tasks issue operations through one Node under generated schedules that yield between the partial writes of a frame: frames must not interleave and per-task order must hold.",
+    "Sequences of the six send-side operations with generated arguments in both framing modes (incl. asymmetric flag offers, payloads with 248..320 distinct atoms around the header's limit of 255, sends whose frame length steps byte by byte across 2^12..2^16, consecutive sends whose payloads differ only in the sign of a zero, unencodable operations, never-connected and closed connections) are read back by an independent deframer and reader and compared with the protocol's control tuple; 1..5 tasks issue operations through one Node under generated schedules that yield between the partial writes of a frame: frames must not interleave and per-task order must hold.",
     "Task interleaving is controlled at sched_point hooks and real I/O waits only.",
     "DESIGN.md §7 C07")
 add("C17", "netbed", "stateful property-based testing: generated waves of concurrent remote calls against a scripted peer (replies in generated order, late / duplicate / stray replies, silence, peer close before or during a wave) + generated task schedules, virtual clock",
